@@ -15,7 +15,10 @@
 (*                       extended bounds, 1..5 on best_bracket(idx) from    *)
 (*                       the cache): ANY bracketing search -- modelled as   *)
 (*                       0..MaxBisect cached bisection steps followed by    *)
-(*                       convergence onto the root of f(.) - level          *)
+(*                       convergence onto the root of f(.) - level; if      *)
+(*                       best_bracket finds no cached point strictly below  *)
+(*                       the level the scan stops in pc = "nobracket"       *)
+(*                       (np.argmax of an empty array raises ValueError)    *)
 (*   GridEval, GridInterp    one hypotest per scan point, then np.interp on *)
 (*                       the reversed arrays per curve                      *)
 (*                                                                         *)
